@@ -36,7 +36,7 @@ def c_collect_defaults():
     pops = {}
     for n in ast.walk(fn):
         if (isinstance(n, ast.Call) and isinstance(n.func, ast.Attribute) and n.func.attr == "pop"
-                and isinstance(n.func.value, ast.Name) and n.func.value.id == "portray" and len(n.args) == 2
+                and isinstance(n.func.value, ast.Name) and len(n.args) == 2    # whatever the local dict is called
                 and isinstance(n.args[0], ast.Constant) and isinstance(n.args[1], ast.Name)):
             pops[n.args[0].value] = n.args[1].id
     if pops != {"size": "size", "color": "color", "marker": "marker", "zorder": "zorder"}:
@@ -56,10 +56,15 @@ def c_size_base():
     found = set()
     for fname in ("draw_orthogonal_grid", "draw_hex_grid", "draw_network", "draw_continuous_space", "draw_voronoi_grid"):
         fn = _find_func(tree, fname)
+        # the local passed as `size=` to collect_agent_data, whatever it is called
+        sized = [k.value.id for n in ast.walk(fn) if isinstance(n, ast.Call) and ast.unparse(n.func) == "collect_agent_data"
+                 for k in n.keywords if k.arg == "size" and isinstance(k.value, ast.Name)]
+        if len(sized) != 1:
+            raise Broken(f"{fname}: collect_agent_data(..., size=<local>) not found")
         vals = [n.value for n in ast.walk(fn) if isinstance(n, ast.Assign) and len(n.targets) == 1
-                and isinstance(n.targets[0], ast.Name) and n.targets[0].id == "s_default"]
+                and isinstance(n.targets[0], ast.Name) and n.targets[0].id == sized[0]]
         if len(vals) != 1:
-            raise Broken(f"{fname}: expected one assignment to s_default")
+            raise Broken(f"{fname}: expected one assignment to the default size")
         v = vals[0]
         ok = (isinstance(v, ast.BinOp) and isinstance(v.op, ast.Pow) and isinstance(v.right, ast.Constant) and v.right.value == 2
               and isinstance(v.left, ast.BinOp) and isinstance(v.left.op, ast.Div) and isinstance(v.left.left, ast.Constant)
@@ -68,9 +73,9 @@ def c_size_base():
         if not ok:
             raise Broken(f"{fname}: s_default is not (K / max(a, b)) ** 2")
         args = [ast.unparse(a) for a in v.left.right.args]
-        want = ["space.width", "space.height"] if fname in ("draw_orthogonal_grid", "draw_hex_grid") else ["width", "height"]
-        if args != want:
-            raise Broken(f"{fname}: max{tuple(args)} instead of max{tuple(want)}")
+        if fname in ("draw_orthogonal_grid", "draw_hex_grid") and args != ["space.width", "space.height"]:
+            raise Broken(f"{fname}: max{tuple(args)} instead of max(space.width, space.height)")
+        # (the other three drawers take the max of two locals - the extents - whose values the oracle checks)
         found.add(v.left.left.value)
     if len(found) != 1:
         raise Broken(f"different size constants {sorted(found)}")
